@@ -248,5 +248,5 @@ func TestC17Sched(t *testing.T) {
 	}
 	w.Flush()
 	f.Close()
-	o.summary(map[string]any{"traces": nTraces, "events": nEvents, "deadlocks": nDeadlock, "keys_answered_more_than_once": nDup, "truncated": trunc, "next": next, "violations": o.nV})
+	o.summary(map[string]any{"traces": nTraces, "events": nEvents, "deadlocks": nDeadlock, "keys_answered_more_than_once": nDup, "truncated": trunc, "transient_blocks_resolved_by_patience": rescuedByPatience, "next": next, "violations": o.nV})
 }
